@@ -28,7 +28,8 @@ RULE = ("case = series 2..60 points with x of non-zero origin in >= 80% x trend 
         " Round-6 classes: bare NumPy ufunc objects as trend callables, target ranges given as narrow NumPy integer scalars."
         " Round-7 classes: numpy.poly1d objects of degree 0..3 (a constant polynomial is falsy) as trend callables."
         " Round-8 classes: numpy.polynomial objects (power / Chebyshev basis, with and without domain mapping) as trend callables; chains of whole-number unit conversions by small NumPy integers (RuntimeWarning = violation)."
-        " Round-9 classes: trend callables that answer a number with a 0-d array (SciPy CubicSpline, np.vectorize, np.where, np.asarray).")
+        " Round-9 classes: trend callables that answer a number with a 0-d array (SciPy CubicSpline, np.vectorize, np.where, np.asarray)."
+        " Round-10 classes: series whose whole span is 1..3 units in the last place (normalise).")
 REQUIRED_MONITORS = ["threads:domain", "threads:first_use:domain", "threads:first_use_yields_injected", "c14:trend", "c14:trend_additive", "c14:shift_scale", "c14:normalize"]
 ASSUMPTIONS = ["scale != 0, min_val < max_val, non-constant array for normalise"]
 NSHARDS = 16
